@@ -227,10 +227,13 @@ func Load(ls LoadSpec) (*Program, error) {
 				// interface method contract?
 				if fc.Decl.Recv != nil {
 					tn := strings.TrimPrefix(types.ExprString(fc.Decl.Recv.List[0].Type), "*")
-					if obj, ok := sp.Pkg.Scope().Lookup(tn).(*types.TypeName); ok {
-						if _, isI := obj.Type().Underlying().(*types.Interface); isI {
-							p.ifaces[tn+"."+fc.Decl.Name.Name] = fc
-							continue
+					if t := (&Env{pkg: sp.Pkg}).resolveType(tn); t != nil {
+						if nt, ok := t.(*types.Named); ok {
+							if _, isI := nt.Underlying().(*types.Interface); isI {
+								// contract for an interface method (of this package or of an imported one)
+								p.ifaces[nt.Obj().Name()+"."+fc.Decl.Name.Name] = fc
+								continue
+							}
 						}
 					}
 				}
